@@ -9,6 +9,11 @@ import GJS.Props.FlatExact
 namespace GJS.Props.Tree
 open GJS GJS.Props.Flat GJS.Props.C02
 
+/-- an array member states only what the generated code checks: item counts on the array, nothing on the items -/
+def ArrFull (p : Schema) : Prop :=
+  p.node.hasNot = false ∧ p.node.multipleOf = none ∧ p.node.format = "" ∧ hasNumTop p = false ∧ hasStrTop p = false ∧
+  0 ≤ p.node.maxItems ∧ (itemsOf p).node.hasNot = false ∧ topFree (itemsOf p) = true
+
 /-- per node: what the end-to-end theorem needs beyond `TreeOK` -/
 structure NodeFull (t : Schema) : Prop where
   hasNot : t.node.hasNot = false
@@ -17,13 +22,14 @@ structure NodeFull (t : Schema) : Prop where
   keysNodup : (akeys t.node.props).Nodup
   reqDeclared : ∀ k ∈ t.node.required, k ∈ akeys t.node.props
   free : topFree t = true
-  kws : ∀ p ∈ t.node.props, isObj p.2 = false → kwOK p.2
+  kws : ∀ p ∈ t.node.props, isObj p.2 = false → isArr p.2 = false → kwOK p.2
+  arrs : ∀ p ∈ t.node.props, isArr p.2 = true → ArrFull p.2
 
 /-- a tree of objects with scalar leaves in which every node states only what the generated code checks -/
 def TreeFull : Nat → Schema → Prop
   | 0, _ => False
   | d + 1, t => ObjShape t ∧ NodeFull t ∧ ∀ n ∈ sortedKeys t.node.props, MemberName t n ∧
-      (FlatProp (propOf t n) ∨ (isObj (propOf t n) = true ∧ TreeFull d (propOf t n)))
+      (FlatProp (propOf t n) ∨ (isObj (propOf t n) = true ∧ TreeFull d (propOf t n)) ∨ ArrProp (propOf t n))
 
 theorem TreeFull.ok : ∀ {d : Nat} {t : Schema}, TreeFull d t → TreeOK d t := by
   intro d
@@ -32,9 +38,10 @@ theorem TreeFull.ok : ∀ {d : Nat} {t : Schema}, TreeFull d t → TreeOK d t :=
   | succ d ih =>
     intro t h
     refine ⟨h.1, fun n hn => ⟨(h.2.2 n hn).1, ?_⟩⟩
-    rcases (h.2.2 n hn).2 with hf | ⟨ho, ht⟩
+    rcases (h.2.2 n hn).2 with hf | ⟨ho, ht⟩ | ha
     · exact Or.inl hf
-    · exact Or.inr ⟨ho, ih ht⟩
+    · exact Or.inr (Or.inl ⟨ho, ih ht⟩)
+    · exact Or.inr (Or.inr ha)
 
 /-- in an environment with pairwise distinct names a struct declaration is what its name resolves to -/
 theorem resolve_mem (env : Env) (hnd : (env.map (·.name)).Nodup) (dd : Decl) (hm : dd ∈ env)
@@ -116,47 +123,76 @@ theorem valJ_T (cfg : Config) (hT : cfg.tags = ["json", "yaml", "mapstructure"])
     (hn : n ∈ sortedKeys t.node.props) (v : Validator) (hv : v ∈ memVs t n) :
     valJustified env ((sortedKeys t.node.props).map (fieldT cfg scope t)) t v = true := by
   obtain ⟨hlk, hmem⟩ := member_facts d t h n hn
-  rcases (h.2.2 n hn).2 with hflat | ⟨hobj, _⟩
+  rcases (h.2.2 n hn).2 with hflat | ⟨hobj, _⟩ | harr
   · have hno := flat_not_obj _ hflat
-    have hkw := h.2.1.kws (n, propOf t n) hmem hno
+    have hna := flat_not_arr _ hflat
+    have hkw := h.2.1.kws (n, propOf t n) hmem hno hna
     have hfind := findT_name cfg scope t n _ hn h.1.distinct
     have hne := fname_ne_empty n
     obtain ⟨ht, href, _, _, _, _, _, _, _, hmul⟩ := hflat
-    simp only [memVs, hno, Bool.false_eq_true, if_false] at hv
+    simp only [memVs, hno, hna, Bool.false_eq_true, if_false] at hv
     unfold propVs at hv
     rcases ht with ht | ht | ht | ht
     · simp only [ht] at hv
       split at hv
       · simp only [List.mem_singleton] at hv; subst hv
         by_cases hr : n ∈ t.node.required <;>
-          simp [valJustified, strJustified, hfind, hne, fieldT, hT, hlk, href, memFty, memTy, hno, scalarTy, ht, strBase, hr]
+          simp [valJustified, strJustified, hfind, hne, fieldT, hT, hlk, href, memFty, memTy, hno, hna, scalarTy, ht, strBase, hr]
       · cases hv
     · simp only [ht] at hv
       split at hv
       · simp only [List.mem_singleton] at hv; subst hv
         obtain ⟨_, _, hx1, hx2, _⟩ := hkw.2.2.2 (Or.inl ht)
         by_cases hr : n ∈ t.node.required <;>
-          simp [valJustified, numJustified, hfind, hne, fieldT, hT, hlk, href, memFty, memTy, hno, scalarTy, ht, numBase, hr, hx1, hx2]
+          simp [valJustified, numJustified, hfind, hne, fieldT, hT, hlk, href, memFty, memTy, hno, hna, scalarTy, ht, numBase, hr, hx1, hx2]
       · cases hv
     · simp only [ht] at hv
       split at hv
       · simp only [List.mem_singleton] at hv; subst hv
         obtain ⟨_, _, hx1, hx2, _⟩ := hkw.2.2.2 (Or.inr ht)
         by_cases hr : n ∈ t.node.required <;>
-          simp [valJustified, numJustified, hfind, hne, fieldT, hT, hlk, href, memFty, memTy, hno, scalarTy, ht, numBase, hr, hx1, hx2]
+          simp [valJustified, numJustified, hfind, hne, fieldT, hT, hlk, href, memFty, memTy, hno, hna, scalarTy, ht, numBase, hr, hx1, hx2]
       · cases hv
     · simp [ht] at hv
   · simp [memVs, hobj] at hv
+  · have hno := arr_not_obj _ harr
+    have hya := arr_is_arr _ harr
+    have hfull := h.2.1.arrs (n, propOf t n) hmem hya
+    have hfind := findT_name cfg scope t n _ hn h.1.distinct
+    have hne := fname_ne_empty n
+    simp only [memVs, hno, hya, Bool.false_eq_true, if_false, if_true] at hv
+    split at hv
+    · simp only [List.mem_singleton] at hv; subst hv
+      have hmx : 0 ≤ (propOf t n).node.maxItems := hfull.2.2.2.2.2.1
+      rcases harr.2.2.2.2.2.2.2.2.1 with hit | hit | hit | hit <;>
+        simp [valJustified, arrJustified, hfind, hne, fieldT, hT, hlk, harr.2.1, harr.1, memFty, memTy, hno, hya, sliceElemOK, elemOK, scalarTy, hit, hmx]
+    · cases hv
 
 theorem TreeFull.shape {d : Nat} {t : Schema} (h : TreeFull d t) : ObjShape t := h.ok.shape
 
 theorem certAll_memScalar (env : Env) (defs : Spec.Defs) (scope : String) (t : Schema) (k : String) (hp : FlatProp (propOf t k)) (f : Nat) :
     certAll env defs (f + 2) (memFty scope t k) (propOf t k) = true := by
   have hno := flat_not_obj _ hp
-  simp only [memFty, memTy, hno, Bool.false_eq_true, if_false]
+  have hna := flat_not_arr _ hp
+  simp only [memFty, memTy, hno, hna, Bool.false_eq_true, if_false, Bool.or_false]
   split
   · exact certAll_scalar env defs _ hp (f + 1)
   · rw [certAll]; simp only [hp.2.1, ne_eq, not_true_eq_false, if_false]; exact certAll_scalar env defs _ hp f
+
+theorem elemOK_scalar (env : Env) (p : Schema) (hp : FlatProp p) : elemOK env (scalarTy p) = true := by
+  rcases hp.1 with h | h | h | h <;> simp [elemOK, scalarTy, h]
+
+theorem certAll_memArr (env : Env) (defs : Spec.Defs) (scope : String) (t : Schema) (k : String) (hp : ArrProp (propOf t k))
+    (hn : (propOf t k).node.hasNot = false) (f : Nat) :
+    certAll env defs (f + 2) (memFty scope t k) (propOf t k) = true := by
+  have hno := arr_not_obj _ hp
+  have hya := arr_is_arr _ hp
+  obtain ⟨hat, haref, haenum, _, haany, haall, _, ⟨it, hit⟩, hitflat⟩ := hp
+  have hio : itemsOf (propOf t k) = it := by simp [itemsOf, hit]
+  rw [hio] at hitflat
+  simp only [memFty, memTy, hno, hya, Bool.or_true, if_true, Bool.false_eq_true, if_false, hio]
+  rw [certAll]
+  simp [haref, hat, haenum, haall, haany, hn, hit, elemOK_scalar env it hitflat, certAll_scalar env defs it hitflat f]
 
 theorem certAll_tree (cfg : Config) (hc : stdCfg cfg) (env : Env) (hnd : (env.map (·.name)).Nodup) :
     ∀ (d : Nat) (scope : String) (t : Schema) (f : Nat), TreeFull d t → (∀ dd ∈ treeDecls cfg d scope t, dd ∈ env) → 3 * d ≤ f →
@@ -215,13 +251,19 @@ theorem certAll_tree (cfg : Config) (hc : stdCfg cfg) (env : Env) (hnd : (env.ma
       have hb : propOf t a = b := by simp [propOf, alookup_of_mem a b t.node.props hfull.keysNodup hab]
       rw [bindT cfg hT scope t a ha]
       have hcert : certAll env [] g (memFty scope t a) b = true := by
-        rcases (hmem a ha).2 with hflat | ⟨hobj, htree⟩
+        rcases (hmem a ha).2 with hflat | ⟨hobj, htree⟩ | harr
         · obtain ⟨g', rfl⟩ : ∃ g', g = g' + 2 := ⟨g - 2, by omega⟩
           have := certAll_memScalar env [] scope t a hflat g'
           rwa [hb] at this
+        rotate_left
+        · obtain ⟨g', rfl⟩ : ∃ g', g = g' + 2 := ⟨g - 2, by omega⟩
+          have hfa := hfull.arrs (a, b) hab (by rw [← hb]; exact arr_is_arr _ harr)
+          have := certAll_memArr env [] scope t a harr (by rw [hb]; exact hfa.1) g'
+          rwa [hb] at this
         · have hsub : ∀ dd ∈ treeDecls cfg d (scope ++ fname a) (propOf t a), dd ∈ env :=
             fun dd hdd => hin dd (sub_decls cfg d scope t a ha hobj dd hdd)
-          simp only [memFty, memTy, hobj, if_true]
+          have hnaO := obj_not_arr _ hobj
+          simp only [memFty, memTy, hobj, hnaO, if_true, Bool.or_false]
           rw [hb] at htree hsub
           split
           · exact ih (scope ++ fname a) b g htree hsub (by omega)
@@ -239,10 +281,11 @@ theorem covered_T (d : Nat) (t : Schema) (h : TreeFull (d + 1) t) (n : String) (
     (hflat : FlatProp (propOf t n)) : topCovered (nodeVs t) (fname n) (propOf t n) = true := by
   obtain ⟨_, hmemp⟩ := member_facts d t h n hn
   have hno := flat_not_obj _ hflat
-  have hkw := h.2.1.kws (n, propOf t n) hmemp hno
+  have hna := flat_not_arr _ hflat
+  have hkw := h.2.1.kws (n, propOf t n) hmemp hno hna
   obtain ⟨ht, _, _, _, _, _, _, _, _, hmul⟩ := hflat
   have hmem := mem_nodeVs t n hn
-  simp only [memVs, hno, Bool.false_eq_true, if_false] at hmem
+  simp only [memVs, hno, hna, Bool.false_eq_true, if_false] at hmem
   unfold propVs at hmem
   unfold topCovered
   rcases ht with ht | ht | ht | ht
@@ -291,12 +334,46 @@ theorem certCov_memScalar (env : Env) (defs : Spec.Defs) (scope : String) (t : S
     (hn : (propOf t k).node.hasNot = false) (f : Nat) :
     certCov env defs (f + 2) (memFty scope t k) (propOf t k) = true := by
   have hno := flat_not_obj _ hp
-  simp only [memFty, memTy, hno, Bool.false_eq_true, if_false]
+  have hna := flat_not_arr _ hp
+  simp only [memFty, memTy, hno, hna, Bool.false_eq_true, if_false, Bool.or_false]
   split
   · exact certCov_scalar env defs _ hp hn (f + 1)
   · rw [certCov]
     simp only [hp.2.1, ne_eq, not_true_eq_false, if_false, hp.2.2.2.2.2.2.2.2.2, hp.2.2.2.2.2.2.1, Option.isNone_none, beq_self_eq_true, Bool.true_and]
     exact certCov_scalar env defs _ hp hn f
+
+theorem covered_arr (d : Nat) (t : Schema) (h : TreeFull (d + 1) t) (n : String) (hn : n ∈ sortedKeys t.node.props)
+    (harr : ArrProp (propOf t n)) : topCovered (nodeVs t) (fname n) (propOf t n) = true := by
+  obtain ⟨_, hmemp⟩ := member_facts d t h n hn
+  have hno := arr_not_obj _ harr
+  have hya := arr_is_arr _ harr
+  have hfull := h.2.1.arrs (n, propOf t n) hmemp hya
+  have hmem := mem_nodeVs t n hn
+  simp only [memVs, hno, hya, Bool.false_eq_true, if_false, if_true] at hmem
+  unfold topCovered
+  by_cases hs : hasArrTop (propOf t n) = true
+  · have hcond : (propOf t n).node.minItems ≠ 0 ∨ (propOf t n).node.maxItems ≠ 0 := by
+      simp only [hasArrTop, Bool.not_eq_true', Bool.and_eq_false_iff, beq_eq_false_iff_ne, ne_eq] at hs
+      exact hs
+    simp only [hcond, if_true] at hmem
+    have := hmem _ (List.mem_singleton.mpr rfl)
+    simp only [hfull.2.2.2.1, hfull.2.2.2.2.1, hs, Bool.not_false, Bool.true_or, Bool.not_true, Bool.false_or, Bool.true_and]
+    exact List.any_eq_true.mpr ⟨_, this, by simp⟩
+  · have hs' : hasArrTop (propOf t n) = false := by simpa using hs
+    simp [hfull.2.2.2.1, hfull.2.2.2.2.1, hs']
+
+theorem certCov_memArr (env : Env) (defs : Spec.Defs) (scope : String) (t : Schema) (k : String) (hp : ArrProp (propOf t k))
+    (hf : ArrFull (propOf t k)) (f : Nat) :
+    certCov env defs (f + 2) (memFty scope t k) (propOf t k) = true := by
+  have hno := arr_not_obj _ hp
+  have hya := arr_is_arr _ hp
+  obtain ⟨hat, haref, haenum, _, haany, haall, _, ⟨it, hit⟩, hitflat⟩ := hp
+  obtain ⟨hn, hmul, hfmt, _, _, _, hitn, hitf⟩ := hf
+  have hio : itemsOf (propOf t k) = it := by simp [itemsOf, hit]
+  rw [hio] at hitflat hitn hitf
+  simp only [memFty, memTy, hno, hya, Bool.or_true, if_true, Bool.false_eq_true, if_false, hio]
+  rw [certCov]
+  simp [haref, hmul, hfmt, leafPlain, haenum, haall, haany, hn, hit, hitf, certCov_scalar env defs it hitflat hitn f]
 
 theorem certCov_tree (cfg : Config) (hc : stdCfg cfg) (env : Env) (hnd : (env.map (·.name)).Nodup) :
     ∀ (d : Nat) (scope : String) (t : Schema) (f : Nat), TreeFull d t → (∀ dd ∈ treeDecls cfg d scope t, dd ∈ env) → 3 * d ≤ f →
@@ -328,9 +405,10 @@ theorem certCov_tree (cfg : Config) (hc : stdCfg cfg) (env : Env) (hnd : (env.ma
       have ha : a ∈ sortedKeys t.node.props := (mem_sortedKeys _ _).mpr (List.mem_map_of_mem (f := (·.1)) hab)
       have hb : propOf t a = b := by simp [propOf, alookup_of_mem a b t.node.props hfull.keysNodup hab]
       rw [bindT cfg hT scope t a ha]
-      rcases (hmem a ha).2 with hflat | ⟨hobj, htree⟩
+      rcases (hmem a ha).2 with hflat | ⟨hobj, htree⟩ | harr
       · have hno := flat_not_obj _ hflat
-        have hkw := hfull.kws (a, b) hab (by rw [← hb]; exact hno)
+        have hna := flat_not_arr _ hflat
+        have hkw := hfull.kws (a, b) hab (by rw [← hb]; exact hno) (by rw [← hb]; exact hna)
         obtain ⟨g', rfl⟩ : ∃ g', g = g' + 2 := ⟨g - 2, by omega⟩
         have hc1 := certCov_memScalar env [] scope t a hflat (by rw [hb]; exact hkw.1) g'
         have hc2 := covered_T d t h0 a ha hflat
@@ -347,7 +425,8 @@ theorem certCov_tree (cfg : Config) (hc : stdCfg cfg) (env : Env) (hnd : (env.ma
         simp only [topFree, Bool.and_eq_true, Bool.not_eq_true'] at htf
         have hcov : topCovered (nodeVs t) (fname a) b = true := by simp [topCovered, htf.1.1, htf.1.2, htf.2]
         have hcert : certCov env [] g (memFty scope t a) b = true := by
-          simp only [memFty, memTy, hb, hobj, if_true]
+          have hnaO := obj_not_arr _ hobj
+          simp only [memFty, memTy, hb, hobj, hnaO, if_true, Bool.or_false]
           split
           · exact ih (scope ++ fname a) b g htree hsub (by omega)
           · obtain ⟨g', rfl⟩ : ∃ g', g = g' + 1 := ⟨g - 1, by omega⟩
@@ -356,6 +435,12 @@ theorem certCov_tree (cfg : Config) (hc : stdCfg cfg) (env : Env) (hnd : (env.ma
               beq_self_eq_true, Bool.true_and]
             exact ih (scope ++ fname a) b g' htree hsub (by omega)
         simp [fieldT, hcert, hcov]
+      · have hfa := hfull.arrs (a, b) hab (by rw [← hb]; exact arr_is_arr _ harr)
+        obtain ⟨g', rfl⟩ : ∃ g', g = g' + 2 := ⟨g - 2, by omega⟩
+        have hc1 := certCov_memArr env [] scope t a harr (by rw [hb]; exact hfa) g'
+        have hc2 := covered_arr d t h0 a ha harr
+        rw [hb] at hc1 hc2
+        simp [fieldT, hc1, hc2]
 
 /-- **END TO END for trees of objects**: for every schema that is a tree of objects (up to five levels) whose leaves are
     scalars with numeric bounds, string limits and patterns, the model generator succeeds and the program it emits — one
@@ -433,26 +518,41 @@ theorem treeFullB_sound : ∀ (d : Nat) (t : Schema), treeFullB d t = true → T
       List.all_eq_true, Bool.or_eq_true] at hnode
     obtain ⟨⟨⟨⟨⟨⟨n1, n2⟩, n3⟩, n4⟩, n5⟩, n6⟩, n7⟩ := hnode
     have hmemS : ∀ n ∈ sortedKeys t.node.props, MemberName t n ∧
-        (FlatProp (propOf t n) ∨ (isObj (propOf t n) = true ∧ TreeFull d (propOf t n))) := by
+        (FlatProp (propOf t n) ∨ (isObj (propOf t n) = true ∧ TreeFull d (propOf t n)) ∨ ArrProp (propOf t n)) := by
       intro n hn
       obtain ⟨hm1, hm2⟩ := hmem n hn
       refine ⟨memberNameB_sound t n hm1, ?_⟩
       rcases hm2 with hf | hf
       · exact Or.inl (flatPropB_sound _ hf)
-      · exact Or.inr ⟨hf.1, ih _ hf.2⟩
+      · exact Or.inr (Or.inl ⟨hf.1, ih _ hf.2⟩)
     refine ⟨hs, ?_, hmemS⟩
     exact {
       hasNot := n1, multipleOf := n2, format := n3, keysNodup := n4
       reqDeclared := fun k hk => by simpa using n5 k hk
       free := n6
-      kws := fun p hp hno => by
+      kws := fun p hp hno _ => by
         rcases n7 p hp with hobj | hk
         · rw [hno] at hobj; cases hobj
         · have hk' : p.1 ∈ sortedKeys t.node.props := (mem_sortedKeys _ _).mpr (List.mem_map_of_mem (f := (·.1)) hp)
           have hpo : propOf t p.1 = p.2 := by simp [propOf, alookup_of_mem p.1 p.2 t.node.props n4 hp]
-          rcases (hmemS p.1 hk').2 with hflat | ⟨ho, _⟩
+          rcases (hmemS p.1 hk').2 with hflat | ⟨ho, _⟩ | harr
           · rw [hpo] at hflat; exact kwOKB_sound _ hflat hk
-          · rw [hpo, hno] at ho; cases ho }
+          · rw [hpo, hno] at ho; cases ho
+          · rw [hpo] at harr; exact absurd (arr_not_obj _ harr) (by
+              -- (this check admits no array members yet: every member is a scalar or an object)
+              obtain ⟨_, hm2⟩ := hmem p.1 hk'
+              rw [hpo] at hm2
+              rcases hm2 with hf | hf
+              · have := flat_not_arr _ (flatPropB_sound _ hf); rw [arr_is_arr _ harr] at this; cases this
+              · have := obj_not_arr _ hf.1; rw [arr_is_arr _ harr] at this; cases this)
+      arrs := fun p hp hya => by
+        have hk' : p.1 ∈ sortedKeys t.node.props := (mem_sortedKeys _ _).mpr (List.mem_map_of_mem (f := (·.1)) hp)
+        have hpo : propOf t p.1 = p.2 := by simp [propOf, alookup_of_mem p.1 p.2 t.node.props n4 hp]
+        obtain ⟨_, hm2⟩ := hmem p.1 hk'
+        rw [hpo] at hm2
+        rcases hm2 with hf | hf
+        · have := flat_not_arr _ (flatPropB_sound _ hf); rw [hya] at this; cases this
+        · have := obj_not_arr _ hf.1; rw [hya] at this; cases this }
 
 /-- the form the driver's count (`CERT tree=`) refers to -/
 theorem tree_end_to_end_checked (cfg : Config) (t : Schema) (id : String) (hc : stdCfgB cfg = true)
